@@ -38,7 +38,7 @@ var c14OrderPoints = map[string][]string{
 	"rewrite":  {"rewrite.begin", "rewrite.captured", "rewrite.tmp_written", "rewrite.replaced", "rewrite.mode_ended", "rewrite.shadow_replayed"},
 }
 
-var c14OrderPairs = []string{"vdel-vadd", "vadd-vdel", "kvset-kvset", "kvset-kvdel", "kvdel-kvset", "glink-gunlink", "gunlink-glink", "vmeta-vmeta", "vadd-vmeta", "vcreate-vdrop", "vdrop-vcreate", "vbatch-vdel"}
+var c14OrderPairs = []string{"vdel-vadd", "vadd-vdel", "kvset-kvset", "kvset-kvdel", "kvdel-kvset", "glink-gunlink", "gunlink-glink", "glink-glink", "vmeta-vmeta", "vadd-vmeta", "vcreate-vdrop", "vdrop-vcreate", "vbatch-vdel"}
 
 const c14OrderWait = 250 * time.Millisecond
 
@@ -162,6 +162,50 @@ func c14OrderWrites(e *engine.Engine, pair string) (w1, w2 func() error, final f
 			func(e *engine.Engine) string {
 				if l, _ := e.VGetLinks("i0", "a", "r"); len(l) != 1 || l[0] != "b" {
 					return fmt.Sprintf("a-r-> %v, the client's last acknowledged write linked a to b again", l)
+				}
+				return ""
+			}
+	case "glink-glink":
+		// two successive versions of one edge (the edge a-r->b exists with weight 1): every version is in the
+		// store exactly once afterwards, whatever was captured, buffered and replayed in between
+		return func() error { return e.VLink("i0", "a", "b", "r", "", 2, nil) }, func() error { return e.VLink("i0", "a", "b", "r", "", 3, nil) },
+			func(e *engine.Engine) string {
+				type ver struct {
+					w    float32
+					c, d int64
+				}
+				var vers []ver
+				e.DB.IterateGraphEdges(func(source, target, rel string, weight float32, props []byte, cTime, dTime int64) {
+					if source == "i0::a" && target == "i0::b" && rel == "r" {
+						vers = append(vers, ver{weight, cTime, dTime})
+					}
+				})
+				active := 0
+				for i, v := range vers {
+					if v.d == 0 {
+						active++
+						if v.w != 3 {
+							return fmt.Sprintf("the active version of a-r->b has weight %v, the client's last acknowledged link set 3 (versions %v)", v.w, vers)
+						}
+					}
+					for j := range vers[:i] {
+						if vers[j].c == v.c {
+							return fmt.Sprintf("a-r->b holds the version created at %d twice (versions %v)", v.c, vers)
+						}
+					}
+					edges, _ := e.VGetEdges("i0", "a", "r", v.c)
+					n := 0
+					for _, ed := range edges {
+						if strings.HasSuffix(ed.TargetID, "b") {
+							n++
+						}
+					}
+					if n != 1 {
+						return fmt.Sprintf("as of %d (creation of the version with weight %v) a-r-> lists b %d times, want once (versions %v)", v.c, v.w, n, vers)
+					}
+				}
+				if active != 1 || len(vers) != 3 {
+					return fmt.Sprintf("a-r->b has %d versions, %d of them active; the three acknowledged links (weights 1, 2, 3) make 3 versions with the last one active (versions %v)", len(vers), active, vers)
 				}
 				return ""
 			}
@@ -411,7 +455,7 @@ func c14OrderRun(c c14OrderCell) (msg string, labels []string) {
 
 func TestVerif_C14_order(t *testing.T) {
 	col := verifkit.New("C14", "order",
-		"forced schedules: for each pair of dependent writes of one client on one item (delete/re-add, add/delete, set/set, set/delete, link/unlink, metadata merges, create/drop index, batch/delete) x admin operation (SaveSnapshot, RewriteAOF) x admin position of the first write x admin position of the second write (positions: before, at each of 6 hook points including the one right after EndSnapshotMode, after); a write blocked by the admin phase is awaited while the admin operation advances; oracle = final effect is the second write's, live and after Close/Open, and the full API-visible state is equal before Close and after Open; non-trivial = at least one write is issued while the admin operation is parked inside its run")
+		"forced schedules: for each pair of dependent writes of one client on one item (delete/re-add, add/delete, set/set, set/delete, link/unlink, two successive versions of one edge, metadata merges, create/drop index, batch/delete) x admin operation (SaveSnapshot, RewriteAOF) x admin position of the first write x admin position of the second write (positions: before, at each of 6 hook points including the one right after EndSnapshotMode, after); a write blocked by the admin phase is awaited while the admin operation advances; oracle = final effect is the second write's, live and after Close/Open, and the full API-visible state is equal before Close and after Open; non-trivial = at least one write is issued while the admin operation is parked inside its run")
 	defer col.Finish()
 	if rp := verifkit.ReplayPath(); rp != "" {
 		if verifkit.ReplayPart(rp) != "order" {
@@ -442,7 +486,10 @@ func TestVerif_C14_order(t *testing.T) {
 			// the quick tier keeps the cells that touch the two phases around the end of snapshot mode and
 			// a seed-selected eighth of the rest
 			near := c.P1 == n-1 || c.P2 == n-1 || c.P1 == n-2 || c.P2 == n-2
-			if !(near && (c.P1 == c.P2 || c.P2 == n-1 || c.P1 == n-2)) && (uint64(i)*0x9E3779B97F4A7C15+uint64(verifkit.Seed()))%8 != 0 {
+			// ... and the cells with both writes inside the capture window (journaled into the shadow buffer AND
+			// captured by the snapshot / compaction, so that the restart replays them on top of a state that holds them)
+			window := c.P1 == 1 && c.P2 == 1
+			if !window && !(near && (c.P1 == c.P2 || c.P2 == n-1 || c.P1 == n-2)) && (uint64(i)*0x9E3779B97F4A7C15+uint64(verifkit.Seed()))%8 != 0 {
 				continue
 			}
 		}
